@@ -358,13 +358,52 @@ def space_iii(tier):
 NSH = 32
 
 
+def judge_reuse(res, ctype, refs, changed, two):
+    """(iv) a correlation rule object that was already resolved and converted in one collection is put into a second collection
+    in which a referenced rule has other content: the query must embed the sub-queries of the rules of THAT collection"""
+    from sigma.collection import SigmaCollection
+    from sigma.correlations import SigmaCorrelationRule
+    from sigma.rule import SigmaRule
+
+    def pl(n, v):
+        d = plain(n, two=two)
+        d["detection"]["sel"]["user"] = v
+        return d
+
+    k = Kc(typing=True)
+    cdoc = corr_doc(ctype, refs)
+    v1 = [pl(n, f"old{n}") for n in (1, 2)]
+    v2 = [pl(n, (f"new{n}" if n in changed else f"old{n}")) for n in (1, 2)]
+    case = {"sub": "iv", "type": ctype, "refs": refs, "changed": list(changed), "two_conditions": two}
+    res["evaluations"] += 1
+    try:
+        cobj = SigmaCorrelationRule.from_dict(copy.deepcopy(cdoc))
+        first = V.make_backend_class(k)().convert(SigmaCollection([SigmaRule.from_dict(copy.deepcopy(d)) for d in v1] + [cobj]))
+        second = V.make_backend_class(k)().convert(SigmaCollection([SigmaRule.from_dict(copy.deepcopy(d)) for d in v2] + [cobj]))
+        fresh = V.make_backend_class(k)().convert(SigmaCollection.from_dicts(copy.deepcopy(v2) + [copy.deepcopy(cdoc)]))
+    except Exception as e:
+        add_violation(res, f"iv:exception:{type(e).__name__}", case, "queries", repr(e)[:200])
+        return
+    res["nontrivial"].add(h64(case))
+    res["outcomes"].add(h64(second))
+    if second != fresh:
+        add_violation(res, "iv:reused-correlation-rule-embeds-rules-of-an-earlier-collection", case, fresh, second)
+
+
 def plan(tier, seed):
-    return [(s, i) for s in ("i", "ii", "iii") for i in range(NSH)]
+    return [(s, i) for s in ("i", "ii", "iii") for i in range(NSH)] + [("iv", 0)]
 
 
 def run_shard(shard, tier, seed):
     res = new_result()
     sub, idx = shard
+    if sub == "iv":
+        for t in TYPES:
+            for refs in (["rule1"], ["rule1", "rule2"], [rid(1), "rule2"]):
+                for changed in ((1,), (2,), (1, 2)):
+                    for two in (False, True):
+                        judge_reuse(res, t, refs, changed, two)
+        return res
     sp = {"i": space_i, "ii": space_ii, "iii": lambda: space_iii(tier)}[sub]()
     for n, (docs, cdoc, k, pipe, label) in enumerate(sp):
         if n % NSH != idx:
@@ -380,6 +419,9 @@ def run_shard(shard, tier, seed):
 
 def replay(case):
     res = new_result()
+    if case.get("sub") == "iv":
+        judge_reuse(res, case["type"], case["refs"], tuple(case["changed"]), case["two_conditions"])
+        return res["violations"]
     docs = case["documents"][:-1]
     cdoc = case["documents"][-1]
     k = V.K(correlation=case["correlation_options"], **{a: (tuple(b) if a == "precedence" else b) for a, b in case["k"].items()})
